@@ -16,7 +16,7 @@ import itertools
 from typing import Any, Callable
 
 from sa import astx as X
-from sa.fold import Closure, Evaluator, Obj, Unknown, safe
+from sa.fold import Closure, EvalRaised, Evaluator, Obj, Unknown, safe
 from sa.index import dotted_of
 
 
@@ -50,9 +50,15 @@ METHOD_MODELS: dict[str, Callable] = {
 }
 
 
+# the `np` name inside interpreted code: dtype names are inert tags (abstract arrays are untyped), `np.newaxis` is None; functions are MODELS entries
+NP_NAMESPACE = {"__namespace__": True, "newaxis": None, **{t: t for t in ("int8", "int16", "int32", "int64", "uint8", "bool_", "float32", "float64", "intp")}}
+
+
 class AbstractClass:
     def __init__(self, index, cls_q: str, extra_calls: dict[str, Callable] | None = None, len_of: Callable[[Obj], int] | None = None,
-                 getitem_of: Callable[[Obj, Any], Any] | None = None) -> None:
+                 getitem_of: Callable[[Obj, Any], Any] | None = None, max_steps: int = 2_000_000) -> None:
+        self.max_steps = max_steps   # per top-level call (nested method calls draw on the same budget): a fragment that does not terminate is undecided quickly
+        self._budget = 0
         self.index = index
         self.cls = index.classes[cls_q]
         self.models = {**MODELS, **(extra_calls or {})}
@@ -61,6 +67,7 @@ class AbstractClass:
         self.depth = 0
         self.log: list[str] = []
         self._len = self._make_len()
+        self._consts: dict = {}
 
     def _method(self, name: str):
         for q in self.index.mro(self.cls):
@@ -77,7 +84,7 @@ class AbstractClass:
                 kwargs = {k.arg: ev.ev(k.value, env) for k in node.keywords if k.arg}
                 try:
                     return self.models[d](*args, **kwargs)
-                except Unknown:
+                except (Unknown, EvalRaised):
                     raise
                 except Exception as e:
                     raise Unknown(f"model of {d}: {e}")
@@ -110,9 +117,36 @@ class AbstractClass:
                     kinds = [d.name.rsplit(".", 1)[-1] for d in m.decorators]
                     if "property" in kinds or "cached_property" in kinds:
                         return self.call(obj, attr, [])
+                # `name = property(lambda self: ...)` at class level
+                for q in self.index.mro(self.cls):
+                    c = self.index.classes.get(q)
+                    v = c.assigns.get(attr) if c is not None else None
+                    if isinstance(v, ast.Call) and dotted_of(v.func) == "property" and len(v.args) == 1 and isinstance(v.args[0], ast.Lambda):
+                        ev_ = Evaluator(self._hooks())
+                        return ev_.call(Closure(v.args[0], {}), [obj], {})
             raise Unknown(f"attribute {attr} of abstract {obj.cls}")
 
-        hooks = {"__call__": call_hook, "__getattr__": getattr_hook}
+        def name_hook(name, env, _mod=None):
+            "free names of the analysed methods: functions / constants of the class's module, names it imports from other modules of the package, `np`"
+            mod = _mod or self.cls.module
+            if name in ("np", "numpy"):
+                return NP_NAMESPACE
+            if name in mod.functions:
+                return Closure(mod.functions[name].node, {})
+            if name in mod.assigns:
+                key = (mod.name, name)
+                if key not in self._consts:
+                    self._consts[key] = Evaluator({**hooks, "__name__": lambda n_, e_, m_=mod: name_hook(n_, e_, m_)}).ev(mod.assigns[name], {})
+                return self._consts[key]
+            tgt = mod.imports.get(name)
+            if tgt and "." in tgt:
+                src, _, leaf = tgt.rpartition(".")
+                m2 = self.index.modules.get(src)
+                if m2 is not None and m2 is not mod:
+                    return name_hook(leaf, env, m2)
+            raise Unknown(f"free name `{name}`")
+
+        hooks = {"__call__": call_hook, "__getattr__": getattr_hook, "__name__": name_hook}
         if self.getitem_of is not None:
             hooks["__getitem__"] = self.getitem_of
         return hooks
@@ -136,6 +170,8 @@ class AbstractClass:
         self.depth += 1
         if self.depth > 12:
             raise Unknown("recursion depth")
+        if self.depth == 1:
+            self._budget = self.max_steps
         try:
             params = m.params()
             kinds = [d.name.rsplit(".", 1)[-1] for d in m.decorators]
@@ -145,8 +181,16 @@ class AbstractClass:
                     env[p] = v
             else:
                 env = {params[0]: self_obj, "len": self._len}
+                for p in params[1:]:
+                    d_ = m.param_default(p)
+                    if d_ is not None:
+                        env[p] = Evaluator(self._hooks()).ev(d_, {})
                 for p, v in zip(params[1:], args):
                     env[p] = v
-            return Evaluator(self._hooks()).run_body(X.body_wo_doc(m.node), env)
+            ev_ = Evaluator(self._hooks(), max_steps=max(self._budget, 1))
+            try:
+                return ev_.run_body(X.body_wo_doc(m.node), env)
+            finally:
+                self._budget -= ev_.steps
         finally:
             self.depth -= 1
